@@ -197,6 +197,44 @@ func matrix() []Case {
 			}
 		}
 	}
+	// E: one string in both slots. Every live kind as subject token (declared as what it is) and the same string as actor
+	// token under every declaration; a third-party token for every role the verifier vouches in. And the act claim: every
+	// policy of the storage x delegation / impersonation x every kind of JWT handed out.
+	for _, router := range routers {
+		for _, s := range good {
+			for _, decl := range allDeclared {
+				roles := []string{""}
+				if s.Kind == "third" {
+					roles = vouchRoles
+				}
+				for _, role := range roles {
+					n++
+					c := baseCase(router)
+					c.Break, c.Subject, c.Requested, c.IssueJWT = "sweep-same-string", s, "access", n%2 == 0
+					c.Extras, c.Policy.VerifyThird, c.VouchRole = true, true, role
+					a := s
+					a.Replay, a.Declared = 1, decl
+					c.Actor = &a
+					out = append(out, c)
+				}
+			}
+		}
+		for _, pol := range actPolicies {
+			for ai := -1; ai < 2; ai++ {
+				for _, req := range []string{"access", "refresh", "id"} {
+					n++
+					c := baseCase(router)
+					c.Break, c.Requested, c.IssueJWT, c.ActPolicy = "sweep-act", req, true, pol
+					if ai >= 0 {
+						a := good[ai]
+						a.User = "u2"
+						c.Actor = &a
+					}
+					out = append(out, c)
+				}
+			}
+		}
+	}
 	// C: client authentication
 	for _, router := range routers {
 		for _, method := range []string{"client_secret_basic", "client_secret_post", "none", "private_key_jwt"} {
@@ -227,5 +265,5 @@ func TestMatrix(t *testing.T) {
 		}
 	}
 	rec.SetExtra("sweep_cases", len(cases))
-	rec.SetExtra("sweep_exhaustive_over", "token kind/state x declared type x role x router; subject x actor x requested x default x format x router; auth method x credential x router; token kind x role x (host of issue x host served first | key change x earlier rotation x token minted before / after / presented again) x router")
+	rec.SetExtra("sweep_exhaustive_over", "token kind/state x declared type x role x router; subject x actor x requested x default x format x router; auth method x credential x router; subject kind x same string as actor x declared actor type (x verifier role) x router; act policy x actor x requested type x router; token kind x role x (host of issue x host served first | key change x earlier rotation x token minted before / after / presented again) x router")
 }
